@@ -180,7 +180,7 @@ func c19Schemas() []func() *c19Schema {
 		func() *c19Schema {
 			s := &c19Schema{name: "Ptr(Slice(String).Default).NotNil + Slice.Contains(param) + Int.OneOf"}
 			def := []string{"a", "b"}
-			nums := []int{1, 2, 3}
+			nums := []int{9, 3, 7, 1, 8, 2, 6, 4, 5, 0, 11, 10} // twelve entries, not in sorted order
 			own(&s.owned, "slice default behind pointer", def)
 			own(&s.owned, "Int OneOf list", nums)
 			sc := z.Struct(z.Schema{
@@ -261,7 +261,7 @@ func c19Schemas() []func() *c19Schema {
 		},
 		func() *c19Schema {
 			s := &c19Schema{name: "String.Min(5).OneOf(list) and String.Min(5).Catch: failing runs whose issues are collected / swallowed"}
-			list := []string{"alpha-beta", "gamma-delta"}
+			list := []string{"zeta-eta", "alpha-beta", "omega-psi", "gamma-delta", "kappa-iota", "beta-alpha", "theta-rho", "delta-gamma", "sigma-tau", "lambda-mu"} // ten entries, not in sorted order
 			prm := map[string]any{"custom": "param"}
 			own(&s.owned, "OneOf list", list)
 			own(&s.owned, "Params option map", prm)
